@@ -440,3 +440,433 @@ Example validateReshape_rej : validateReshape [2; 6] [3; 5] = false. Proof. refl
 Example validateBroadcast_acc : validateBroadcast [3; 1] [2; 3; 4] = true. Proof. reflexivity. Qed.
 Example validateBroadcast_rej : validateBroadcast [3; 2] [2; 3; 4] = false. Proof. reflexivity. Qed.
 Example validateBroadcast_rej_len : validateBroadcast [1; 1; 1] [1; 1] = false. Proof. reflexivity. Qed.
+
+(* ====================================================================== *)
+(* 9. Full / Eye are total                                                 *)
+(* ====================================================================== *)
+
+Lemma natsOf_pos ds : Forall (fun d => 0 < d) ds -> Forall (fun d => (0 < d)%nat) (natsOf ds).
+Proof.
+  intros H. induction H as [|d r Hd Hr IH]; cbn [natsOf map]; constructor; [lia|exact IH].
+Qed.
+
+Lemma not_Exists_nonpos ds : ~ Exists (fun d => d <= 0) ds -> Forall (fun d => 0 < d) ds.
+Proof.
+  intros H. apply validateInputDims_spec. destruct (validateInputDims ds) eqn:E; [reflexivity|].
+  exfalso. apply H, validateInputDims_false, E.
+Qed.
+
+Lemma iter_S k : forall s, iter nat S k s = (k + s)%nat.
+Proof. induction k as [|k IH]; intros s; cbn [iter]; [reflexivity|]. rewrite IH. lia. Qed.
+
+(* position of (i,j) in an n x n matrix is on the diagonal pattern iff i = j *)
+Lemma eye_arith (n i j : nat) : (i < n)%nat -> (j < n)%nat ->
+  ((i * n + j) mod (n + 1) = 0 <-> i = j)%nat.
+Proof.
+  intros Hi Hj. destruct (le_lt_dec i j) as [Hle|Hlt].
+  - replace (i * n + j)%nat with ((j - i) + i * (n + 1))%nat by nia.
+    rewrite Nat.mod_add by lia. rewrite Nat.mod_small by lia. lia.
+  - replace (i * n + j)%nat with ((n + 1 - (i - j)) + (i - 1) * (n + 1))%nat by nia.
+    rewrite Nat.mod_add by lia. rewrite Nat.mod_small by lia. lia.
+Qed.
+
+Section Total.
+Context {A : Type} {SA : Scalar A}.
+
+Lemma constTensor_spec (v : A) ds : constTensor v ds = Some (mkT ds (tab ds (fun _ => v))).
+Proof.
+  unfold constTensor.
+  rewrite (initWith_spec A unit (constGen v) (fun _ => Sc v) (fun s => s) (fun _ => True)
+             (fun s _ => eq_refl) (fun s _ => I) ds tt I).
+  cbn [obind]. rewrite (tabS_tab A unit (fun _ => Sc v) (fun s => s) (fun _ => v) (fun _ => eq_refl)).
+  reflexivity.
+Qed.
+
+Definition eyeElem (i j : nat) : A := if (i =? j)%nat then s1 else s0.
+
+Lemma eyeMatrix_spec (n : nat) :
+  eyeMatrix n = Some (mkT [n; n] (tab [n; n]
+     (fun idx => if (flatIdx [n; n] idx mod (n + 1) =? 0)%nat then s1 else s0))).
+Proof.
+  unfold eyeMatrix.
+  rewrite (initWith_spec A nat (eyeGen n) (fun s => Sc (if (s mod (n + 1) =? 0)%nat then s1 else s0)) S
+             (fun _ => True) (fun s _ => eq_refl) (fun s _ => I) [n; n] 0%nat I).
+  cbn [obind].
+  rewrite (tabS_tab A nat _ S (fun s => if (s mod (n + 1) =? 0)%nat then s1 else s0) (fun _ => eq_refl)).
+  do 2 f_equal. apply (tab_ext A). intros idx _. rewrite iter_S, Nat.add_0_r. reflexivity.
+Qed.
+
+(* Full: an error exactly when some extent is <= 0; otherwise a well-formed tensor of the requested
+   shape holding v everywhere.  Never a panic. *)
+Theorem v_full_total (ds : list Z) (v : A) :
+  (v_full ds v = Err <-> Exists (fun d => d <= 0) ds) /\
+  (~ Exists (fun d => d <= 0) ds ->
+     exists t, v_full ds v = Ok t /\ wf t /\ dims t = natsOf ds /\
+               forall idx, validIdx (dims t) idx -> get (data t) idx = Some v) /\
+  v_full ds v <> Panic.
+Proof.
+  unfold v_full, guard. rewrite constTensor_spec. cbn [of_opt].
+  destruct (validateInputDims ds) eqn:E.
+  - split; [|split].
+    + split; [discriminate|]. intros H. apply validateInputDims_false in H. congruence.
+    + intros _. eexists; split; [reflexivity|]. cbn [dims data]. split; [split|split].
+      * cbn [dims data]. apply wfnd_tab.
+      * cbn [dims]. apply natsOf_pos, validateInputDims_spec, E.
+      * reflexivity.
+      * intros idx Hv. apply (get_tab A _ (fun _ => v)), Hv.
+    + discriminate.
+  - split; [|split].
+    + split; [intros _; apply validateInputDims_false, E|reflexivity].
+    + intros H. exfalso. apply H, validateInputDims_false, E.
+    + discriminate.
+Qed.
+
+Corollary v_full_ok_iff (ds : list Z) (v : A) :
+  (exists t, v_full ds v = Ok t) <-> inputDimsPre ds.
+Proof.
+  unfold v_full, guard. rewrite constTensor_spec, <- validateInputDims_spec. cbn [of_opt].
+  destruct (validateInputDims ds); split.
+  - reflexivity.
+  - intros _. eexists; reflexivity.
+  - intros (t & H); discriminate.
+  - discriminate.
+Qed.
+
+(* Eye: an error exactly when n <= 0; otherwise the n x n identity. *)
+Theorem v_eye_total (n : Z) :
+  (v_eye n = Err <-> n <= 0) /\
+  (0 < n ->
+     exists t, v_eye n = Ok t /\ wf t /\ dims t = [Z.to_nat n; Z.to_nat n] /\
+               forall i j, (i < Z.to_nat n)%nat -> (j < Z.to_nat n)%nat ->
+                           get (data t) [i; j] = Some (eyeElem i j)) /\
+  v_eye n <> Panic.
+Proof.
+  unfold v_eye, guard. rewrite eyeMatrix_spec. cbn [of_opt validateInputDims forallb].
+  destruct (Z.leb_spec n 0) as [Hn|Hn]; cbn [negb andb].
+  - split; [|split]; [split; [intros _; exact Hn|reflexivity]|lia|discriminate].
+  - split; [|split]; [split; [discriminate|lia]| |discriminate].
+    intros _. eexists; split; [reflexivity|]. cbn [dims data]. split; [split|split].
+    + cbn [dims data]. apply wfnd_tab.
+    + cbn [dims]. repeat constructor; lia.
+    + reflexivity.
+    + intros i j Hi Hj. rewrite (get_tab A) by (repeat constructor; assumption).
+      f_equal. unfold eyeElem. cbn [flatIdx prodn fold_right].
+      replace (i * (Z.to_nat n * 1) + (j * 1 + 0))%nat with (i * Z.to_nat n + j)%nat by lia.
+      pose proof (eye_arith (Z.to_nat n) i j Hi Hj) as Ha.
+      destruct (Nat.eqb_spec ((i * Z.to_nat n + j) mod (Z.to_nat n + 1)) 0) as [E1|E1];
+        destruct (Nat.eqb_spec i j) as [E2|E2]; try reflexivity; exfalso; tauto.
+Qed.
+
+End Total.
+
+Example v_full_acc : exists t, @v_full Z [2; 3] 7 = Ok t /\ get (data t) [1%nat; 2%nat] = Some 7.
+Proof. eexists; split; reflexivity. Qed.
+Example v_full_rej : @v_full Z [2; 0] 7 = Err. Proof. reflexivity. Qed.
+Example v_full_rej_neg : @v_full Z [-2] 7 = Err. Proof. reflexivity. Qed.
+Example v_eye_acc :
+  exists t, @v_eye term _ 3 = Ok t /\ get (data t) [1%nat; 1%nat] = Some s1 /\ get (data t) [1%nat; 2%nat] = Some s0.
+Proof. eexists; repeat split; reflexivity. Qed.
+Example v_eye_rej : @v_eye term _ 0 = Err. Proof. reflexivity. Qed.
+Example v_eye_rej_neg : @v_eye term _ (-4) = Err. Proof. reflexivity. Qed.
+
+(* ====================================================================== *)
+(* 8. nested data: dataUnity / TensorOf                                    *)
+(* ====================================================================== *)
+
+Section DataUnityP.
+Variable A : Type.
+Implicit Types (x y : nd A) (l : list (nd A)).
+
+Lemma firstLens_shapeOf : forall x, firstLens x = shapeOf x.
+Proof.
+  apply nd_ind'.
+  - intros a. reflexivity.
+  - intros l Hl. destruct l as [|y r]; [reflexivity|]. cbn [firstLens shapeOf].
+    inversion Hl as [|? ? Hy Hr]; subst. rewrite Hy. reflexivity.
+Qed.
+
+Lemma list_eqb_spec : forall a b : list nat, list_eqb a b = true <-> a = b.
+Proof.
+  unfold list_eqb. induction a as [|n a IH]; intros [|m b]; cbn [length combine forallb fst snd].
+  - split; reflexivity.
+  - split; discriminate.
+  - split; discriminate.
+  - specialize (IH b). rewrite andb_true_iff in IH. rewrite !andb_true_iff.
+    change (S (length a) =? S (length b))%nat with (length a =? length b)%nat. split.
+    + intros [H1 [H2 H3]]. apply Nat.eqb_eq in H2. subst m. f_equal. apply IH. split; assumption.
+    + intros H; inversion H; subst. destruct IH as [_ IH]. destruct (IH eq_refl) as [H1 H2].
+      repeat split; [exact H1|apply Nat.eqb_refl|exact H2].
+Qed.
+
+(* the shape every row is compared with *)
+Definition headShape l : list nat := match l with [] => [] | y :: _ => firstLens y end.
+
+Lemma dataUnity_Vec l :
+  dataUnity (Vec l) =
+  negb (length l =? 0)%nat && forallb (fun sub => dataUnity sub && list_eqb (firstLens sub) (headShape l)) l.
+Proof.
+  (* the inner loop of dataUnity is forallb, up to conversion *)
+  reflexivity.
+Qed.
+
+Lemma shapeOf_wf : forall ds x, wfnd ds x -> Forall (fun d => (0 < d)%nat) ds -> shapeOf x = ds.
+Proof.
+  induction ds as [|d ds IH]; intros x Hw Hp.
+  - apply (wfnd_nil A) in Hw as (a & ->). reflexivity.
+  - apply (wfnd_cons A) in Hw as (l & -> & Hl & Hf). inversion Hp as [|? ? Hd Hps]; subst.
+    destruct l as [|y r]; [cbn in Hd; lia|]. cbn [shapeOf]. f_equal.
+    inversion Hf as [|? ? Hy Hr]; subst. apply IH; assumption.
+Qed.
+
+(* accepted data is rectangular with the shape read off the first elements, and has no empty level.
+   No assumption on the nesting depth is needed: the validator itself enforces it. *)
+Lemma dataUnity_sound : forall x, dataUnity x = true -> dataPre x.
+Proof.
+  unfold dataPre.
+  apply (nd_ind' A (fun x => dataUnity x = true ->
+                             wfnd (shapeOf x) x /\ Forall (fun d => (0 < d)%nat) (shapeOf x))).
+  - intros a _. split; [exact I|constructor].
+  - intros l IH. rewrite dataUnity_Vec, andb_true_iff, forallb_forall. intros [Hne Hall].
+    destruct l as [|y r]; [cbn in Hne; discriminate|].
+    rewrite Forall_forall in IH. cbn [shapeOf]. split.
+    + cbn [wfnd]. split; [reflexivity|]. apply Forall_forall. intros sub Hsub.
+      specialize (Hall sub Hsub). apply andb_true_iff in Hall as [Hd He].
+      apply list_eqb_spec in He. cbn [headShape] in He. rewrite (firstLens_shapeOf sub), (firstLens_shapeOf y) in He.
+      destruct (IH sub Hsub Hd) as [Hw _]. rewrite He in Hw. exact Hw.
+    + constructor; [cbn [length]; lia|].
+      specialize (Hall y (or_introl eq_refl)). apply andb_true_iff in Hall as [Hd _].
+      apply (IH y (or_introl eq_refl) Hd).
+Qed.
+
+Lemma dataUnity_complete_gen : forall ds x,
+  wfnd ds x -> Forall (fun d => (0 < d)%nat) ds -> dataUnity x = true.
+Proof.
+  induction ds as [|d ds IH]; intros x Hw Hp.
+  - apply (wfnd_nil A) in Hw as (a & ->). reflexivity.
+  - apply (wfnd_cons A) in Hw as (l & -> & Hl & Hf). inversion Hp as [|? ? Hd Hps]; subst.
+    rewrite Forall_forall in Hf.
+    rewrite dataUnity_Vec, andb_true_iff, forallb_forall. split.
+    + apply negb_true_iff, Nat.eqb_neq. lia.
+    + intros sub Hsub. apply andb_true_iff. split; [apply IH; [apply Hf, Hsub|exact Hps]|].
+      apply list_eqb_spec. destruct l as [|y r]; [destruct Hsub|]. cbn [headShape].
+      rewrite (firstLens_shapeOf sub), (firstLens_shapeOf y).
+      rewrite (shapeOf_wf ds sub (Hf sub Hsub) Hps), (shapeOf_wf ds y (Hf y (or_introl eq_refl)) Hps).
+      reflexivity.
+Qed.
+
+(* TensorOf's validator accepts exactly the rectangular data without an empty level *)
+Theorem dataUnity_spec x : dataUnity x = true <-> dataPre x.
+Proof.
+  split; [apply dataUnity_sound|]. intros [Hw Hp]. exact (dataUnity_complete_gen _ x Hw Hp).
+Qed.
+
+(* uniform depth (what Go's static slice types guarantee) is implied by well-formedness, hence by
+   acceptance; the statement restricted to uniform-depth data is a special case *)
+Lemma wfnd_uniformDepth : forall ds x, wfnd ds x -> uniformDepth (length ds) x.
+Proof.
+  induction ds as [|d ds IH]; intros x Hw.
+  - apply (wfnd_nil A) in Hw as (a & ->). exact I.
+  - apply (wfnd_cons A) in Hw as (l & -> & _ & Hf). cbn [length uniformDepth].
+    rewrite Forall_forall in *. intros y Hy. apply IH, Hf, Hy.
+Qed.
+
+Corollary dataUnity_uniformDepth x : dataUnity x = true -> uniformDepth (length (shapeOf x)) x.
+Proof. intros H. apply wfnd_uniformDepth, (dataUnity_sound x H). Qed.
+
+Corollary dataUnity_spec_uniform n x : uniformDepth n x -> (dataUnity x = true <-> dataPre x).
+Proof. intros _. apply dataUnity_spec. Qed.
+
+(* copying well-formed data along its own shape is the identity (and never panics) *)
+Lemma copyData_wf : forall ds x, wfnd ds x -> copyData ds x = Some x.
+Proof.
+  induction ds as [|d ds IH]; intros x Hw.
+  - apply (wfnd_nil A) in Hw as (a & ->). reflexivity.
+  - apply (wfnd_cons A) in Hw as (l & -> & Hl & Hf). cbn [copyData asV obind].
+    subst d. rewrite Nat.eqb_refl. rewrite Forall_forall in Hf.
+    rewrite (mapM_all_some (copyData ds) (fun y => y) l) by (intros y Hy; apply IH, Hf, Hy).
+    cbn [obind]. rewrite map_id. reflexivity.
+Qed.
+
+Theorem tensorOf_total x : dataUnity x = true ->
+  exists t, initTensorFromData x = Some t /\ wf t /\ dims t = shapeOf x /\ data t = x /\
+            flat (data t) = flat x.
+Proof.
+  intros H. apply dataUnity_sound in H as [Hw Hp]. exists (mkT (shapeOf x) x).
+  unfold initTensorFromData. cbv zeta. rewrite (copyData_wf _ x Hw). cbn [obind].
+  split; [reflexivity|]. split; [split; assumption|]. repeat split; reflexivity.
+Qed.
+
+Corollary tensorOf_total_uniform n x : dataUnity x = true -> uniformDepth n x ->
+  exists t, initTensorFromData x = Some t /\ wf t /\ dims t = shapeOf x /\ flat (data t) = flat x.
+Proof.
+  intros H _. destruct (tensorOf_total x H) as (t & H1 & H2 & H3 & _ & H5). exists t. tauto.
+Qed.
+
+(* the public call: an error exactly when the precondition fails, never a panic *)
+Theorem v_tensorOf_total x :
+  (v_tensorOf x = Err <-> ~ dataPre x) /\
+  (dataPre x -> exists t, v_tensorOf x = Ok t /\ wf t /\ dims t = shapeOf x /\ data t = x) /\
+  v_tensorOf x <> Panic.
+Proof.
+  unfold v_tensorOf, guard. rewrite <- dataUnity_spec. destruct (dataUnity x) eqn:E.
+  - destruct (tensorOf_total x E) as (t & -> & Hwf & Hd & Hx & _). cbn [of_opt].
+    split; [|split].
+    + split; [discriminate|intros H; exfalso; apply H; reflexivity].
+    + intros _. exists t. tauto.
+    + discriminate.
+  - split; [|split].
+    + split; [intros _; discriminate|reflexivity].
+    + discriminate.
+    + discriminate.
+Qed.
+
+End DataUnityP.
+
+Example dataUnity_acc : dataUnity (Vec [Vec [Sc 1; Sc 2; Sc 3]; Vec [Sc 4; Sc 5; Sc 6]]) = true. Proof. reflexivity. Qed.
+Example dataUnity_rej_ragged : dataUnity (Vec [Vec [Sc 1; Sc 2]; Vec [Sc 4]]) = false. Proof. reflexivity. Qed.
+Example dataUnity_rej_empty : dataUnity (Vec [Vec ([] : list (nd Z)); Vec []]) = false. Proof. reflexivity. Qed.
+(* the case fix F6 is about: equal lengths at level 2, different lengths at level 3 *)
+Example dataUnity_rej_inner :
+  dataUnity (Vec [Vec [Vec [Sc 1; Sc 2]]; Vec [Vec [Sc 3]]]) = false. Proof. reflexivity. Qed.
+(* mixed depth is rejected as well *)
+Example dataUnity_rej_depth : dataUnity (Vec [Sc 1; Vec [Sc 2]]) = false. Proof. reflexivity. Qed.
+Example v_tensorOf_acc :
+  v_tensorOf (Vec [Vec [Sc 1; Sc 2]; Vec [Sc 3; Sc 4]])
+  = Ok (mkT [2; 2]%nat (Vec [Vec [Sc 1; Sc 2]; Vec [Sc 3; Sc 4]])). Proof. reflexivity. Qed.
+Example v_tensorOf_rej : v_tensorOf (Vec [Vec [Sc 1; Sc 2]; Vec [Sc 3]]) = Err. Proof. reflexivity. Qed.
+
+(* ====================================================================== *)
+(* 10. argument checks of the components                                   *)
+(* ====================================================================== *)
+
+Theorem oneInput_spec xs x : oneInput xs = Some x <-> oneInputPre xs x.
+Proof.
+  unfold oneInput, oneInputPre.
+  destruct xs as [|[y|] [|z r]]; split; intros H; try discriminate; inversion H; reflexivity.
+Qed.
+
+Example oneInput_acc : oneInput [Some 3%nat] = Some 3%nat. Proof. reflexivity. Qed.
+Example oneInput_rej_nil : oneInput [None] = None. Proof. reflexivity. Qed.
+Example oneInput_rej_none : oneInput [] = None. Proof. reflexivity. Qed.
+Example oneInput_rej_two : oneInput [Some 3%nat; Some 4%nat] = None. Proof. reflexivity. Qed.
+
+Section LossArgs.
+Context {A : Type}.
+
+Lemma rank1_inv (h : @heap A) (p : nat) : rankOf h p = 1%nat ->
+  exists v a, valOf h p = Some v /\ dims v = [a] /\ dim0Of h p = a.
+Proof.
+  unfold rankOf, dim0Of. destruct (valOf h p) as [v|]; [|discriminate].
+  destruct (dims v) as [|a [|b r]] eqn:Ed; cbn [length]; intros H; try discriminate.
+  exists v, a. repeat split. exact Ed.
+Qed.
+
+Theorem lossArgs1_spec (h : @heap A) (yp yt : targ) (p t : nat) :
+  lossArgs1 h yp yt = Some (p, t) <-> lossArgs1Pre h yp yt p t.
+Proof.
+  unfold lossArgs1, lossArgs1Pre. split.
+  - destruct yp as [p'|]; [|discriminate]. destruct yt as [t'|]; [|discriminate].
+    destruct ((rankOf h p' =? 1)%nat && (rankOf h t' =? 1)%nat && (dim0Of h p' =? dim0Of h t')%nat) eqn:E;
+      [|discriminate].
+    intros H; inversion H; subst p' t'.
+    apply andb_true_iff in E as [E E3]. apply andb_true_iff in E as [E1 E2].
+    apply Nat.eqb_eq in E1, E2, E3.
+    destruct (rank1_inv h p E1) as (vp & a & Hvp & Hdp & Hap).
+    destruct (rank1_inv h t E2) as (vt & b & Hvt & Hdt & Hbt).
+    repeat split. exists vp, vt, a. repeat split; try assumption. congruence.
+  - intros (-> & -> & vp & vt & n & Hvp & Hvt & Hdp & Hdt).
+    unfold rankOf, dim0Of. rewrite Hvp, Hvt, Hdp, Hdt. cbn [length nth].
+    rewrite !Nat.eqb_refl. reflexivity.
+Qed.
+
+End LossArgs.
+
+(* dec_lt compares  m1 * 10^e1  with  m2 * 10^e2 *)
+Theorem dec_lt_spec (a b : dec) : dec_lt a b = true <-> decLt a b.
+Proof.
+  unfold dec_lt, dec_cmp, decLt. cbv zeta.
+  set (X := fst a * 10 ^ (snd a - Z.min (snd a) (snd b))).
+  set (Y := fst b * 10 ^ (snd b - Z.min (snd a) (snd b))).
+  destruct (X ?= Y) eqn:E; split; intros H; try discriminate; try reflexivity.
+  - apply Z.compare_lt_iff in H. congruence.
+  - apply Z.compare_lt_iff. exact E.
+  - apply Z.compare_lt_iff in H. congruence.
+Qed.
+
+(* ... and the choice of the common scale does not matter: any exponent below both will do *)
+Theorem dec_lt_scale (a b : dec) (e : Z) : e <= snd a -> e <= snd b ->
+  (dec_lt a b = true <-> fst a * 10 ^ (snd a - e) < fst b * 10 ^ (snd b - e)).
+Proof.
+  intros Ha Hb. rewrite dec_lt_spec. unfold decLt. cbv zeta.
+  set (m := Z.min (snd a) (snd b)).
+  assert (Hm : e <= m) by (unfold m; lia).
+  assert (Hma : m <= snd a) by (unfold m; lia).
+  assert (Hmb : m <= snd b) by (unfold m; lia).
+  replace (snd a - e) with ((snd a - m) + (m - e)) by lia.
+  replace (snd b - e) with ((snd b - m) + (m - e)) by lia.
+  rewrite !Z.pow_add_r by lia. rewrite !Z.mul_assoc.
+  assert (Hp : 0 < 10 ^ (m - e)) by (apply Z.pow_pos_nonneg; lia).
+  apply Z.mul_lt_mono_pos_r. exact Hp.
+Qed.
+
+Theorem dec_pos_spec (a : dec) : dec_pos a = true <-> 0 < fst a.
+Proof. unfold dec_pos. lia. Qed.
+
+Theorem init_valid_spec (dUniL dUniU dNorS : dec) (s : initSpec) :
+  init_valid dUniL dUniU dNorS s = true <-> initPre dUniL dUniU dNorS s.
+Proof.
+  destruct s as [v | [[l u]|] | [[m sd]|] | [f|] | [f|] | [[fi fo]|] | [[fi fo]|]];
+    cbn [init_valid initPre];
+    try apply dec_lt_spec; try apply dec_pos_spec; try lia;
+    try (split; [discriminate|intros []]).
+Qed.
+
+Example dec_lt_acc : dec_lt (-5, -2) (5, -2) = true. Proof. reflexivity. Qed.       (* -0.05 < 0.05 *)
+Example dec_lt_acc_scale : dec_lt (15, -1) (2, 0) = true. Proof. reflexivity. Qed.   (* 1.5 < 2 *)
+Example dec_lt_rej_eq : dec_lt (10, -1) (1, 0) = false. Proof. reflexivity. Qed.     (* 1.0 < 1 fails *)
+Example dec_lt_rej : dec_lt (3, 1) (299, -1) = false. Proof. reflexivity. Qed.       (* 30 < 29.9 fails *)
+Example init_valid_acc : init_valid (-5, -2) (5, -2) (5, -2) (IUniform (Some ((0, 0), (1, 0)))) = true.
+Proof. reflexivity. Qed.
+Example init_valid_rej : init_valid (-5, -2) (5, -2) (5, -2) (IUniform (Some ((1, 0), (1, 0)))) = false.
+Proof. reflexivity. Qed.
+Example init_valid_rej_nil : init_valid (-5, -2) (5, -2) (5, -2) (IHeUniform None) = false.
+Proof. reflexivity. Qed.
+Example init_valid_rej_fan : init_valid (-5, -2) (5, -2) (5, -2) (IXavierNormal (Some (3, 0))) = false.
+Proof. reflexivity. Qed.
+Example init_valid_acc_fan : init_valid (-5, -2) (5, -2) (5, -2) (IXavierNormal (Some (3, 2))) = true.
+Proof. reflexivity. Qed.
+Example init_valid_rej_sd : init_valid (-5, -2) (5, -2) (5, -2) (INormal (Some ((0, 0), (0, 0)))) = false.
+Proof. reflexivity. Qed.
+
+(* ====================================================================== *)
+Print Assumptions validateInputDims_spec.
+Print Assumptions validateAtIndexAgainstDims_spec.
+Print Assumptions validateSliceIndexAgainstDims_spec.
+Print Assumptions validatePatchIndexAgainstDims_spec.
+Print Assumptions validateConcat_spec.
+Print Assumptions validateConcat_none.
+Print Assumptions validateBinaryFuncDimsMatch_spec.
+Print Assumptions validateDotProductDims_spec.
+Print Assumptions validateDotProductDims_spec'.
+Print Assumptions validateMatMulDims_spec.
+Print Assumptions validateMatMulDims_spec'.
+Print Assumptions validateReducedDimAgainstDims_spec.
+Print Assumptions validateFlattenDim_spec.
+Print Assumptions validateUnSqueezeDim_spec.
+Print Assumptions validateSqueezeDim_spec.
+Print Assumptions validateTransposeDims_spec.
+Print Assumptions validateReshape_spec.
+Print Assumptions validateBroadcast_spec.
+Print Assumptions validateBroadcast_spec'.
+Print Assumptions firstLens_shapeOf.
+Print Assumptions dataUnity_spec.
+Print Assumptions tensorOf_total.
+Print Assumptions v_tensorOf_total.
+Print Assumptions eye_arith.
+Print Assumptions v_full_total.
+Print Assumptions v_eye_total.
+Print Assumptions oneInput_spec.
+Print Assumptions lossArgs1_spec.
+Print Assumptions dec_lt_spec.
+Print Assumptions dec_lt_scale.
+Print Assumptions init_valid_spec.
